@@ -104,6 +104,9 @@ theorem recvStep_none_iff (fl : Flavour) (cfg : Cfg) (s : St) (t : Nat) (f : For
 theorem findH_flush (fl) (s : St) (h) : findH (mbFlush fl s).hs h = findH s.hs h := by
   unfold mbFlush; split <;> rfl
 
+theorem findH_flushMid (fl) (s : St) (h) : findH (mbFlushMid fl s).hs h = findH s.hs h := by
+  unfold mbFlushMid; split <;> rfl
+
 /-- a receive that cannot move stays where it is however long it is run (a bounded-mpsc consumer
 flushes its unpublished progress once on the way) -/
 theorem runPS_brecv_stuck (fl : Flavour) (cfg : Cfg) (t : Nat) (f : Form) (h : HName) (n : Nat) (hd : Handle)
